@@ -5,7 +5,8 @@
    prints  R <b1>;<b2>;...  one item per build: C:<v0>,<mask> (compiled now) | L:<v0>,<mask> (cached binary
                             loaded) | F (build failed) | D (applyDependencyHash did not return)
            S <s1>;<s2>;...  what a fresh compilation of the current texts computes: <v0>,<mask> | F
-   v0 = val of the kernel source, mask = OR of 2^(val-1) over the included files with val > 0.
+   v0 = val of the kernel source, mask = OR of 2^(m-1) over the included files, m = val mod 7 > 0 (the macro X<m> the
+   file defines; val div 7 = which of its #include lines use the angle-bracket form, part of the text only).
    C07_VARIANT=pinned runs the model of the code before fixes/C07-1.patch. *)
 let variant = match Sys.getenv_opt "C07_VARIANT" with Some "pinned" -> Pinned | _ -> Fixed
 
@@ -13,7 +14,7 @@ let values (s : (nat * contents) list) : string =
   match s with
   | [] -> "F"
   | (_, r) :: rest ->
-    let mask = List.fold_left (fun m (_, c) -> let v = int_of_nat c.val0 in if v > 0 then m lor (1 lsl (v - 1)) else m) 0 rest in
+    let mask = List.fold_left (fun m (_, c) -> let v = int_of_nat c.val0 mod 7 in if v > 0 then m lor (1 lsl (v - 1)) else m) 0 rest in
     Printf.sprintf "%d,%d" (int_of_nat r.val0) mask
 
 let parse_op (t : string) : op option =
